@@ -139,6 +139,24 @@ def hostile_reads(ev, mods):
         HUB.acc.hist("hostile_reads_error", type(e).__name__)
 
 
+class StrSub(str):
+    """A trivial str subclass (what a 'NewType'-like wrapper or a path library hands out)."""
+
+
+def typed_names(names, how):
+    """The same names as instances of another str type: 'strsub' - a trivial subclass; 'enum' - members of a str-mixin Enum
+    (class Modules(str, Enum): CORE = "app.core"), which compare, hash and slice like their value but FORMAT as
+    'Modules.CORE' since Python 3.11/3.12; 'strenum' - members of an enum.StrEnum."""
+    import enum
+
+    if how == "strsub":
+        return [StrSub(n) for n in names]
+    uniq = list(dict.fromkeys(names))
+    cls = enum.Enum("Modules", {f"M{i}": n for i, n in enumerate(uniq)}, type=str) if how == "enum" else enum.StrEnum("Modules", {f"M{i}": n for i, n in enumerate(uniq)})
+    by_value = {m.value: m for m in cls}
+    return [by_value[n] for n in names]
+
+
 def _arg(names, as_list=None):
     """as_list: falsy -> a single name is given as a plain string; True -> always a list; 'tuple' / 'generator' / 'map'
     -> the batch in that container (a Sequence, or a one-shot iterable the library has to read exactly once)."""
@@ -148,6 +166,9 @@ def _arg(names, as_list=None):
         return (n for n in list(names))
     if as_list == "map":
         return map(str, list(names))
+    if as_list in ("strsub", "enum", "strenum"):
+        t = typed_names(list(names), as_list)
+        return t if len(t) > 1 else t[0]
     if len(names) > 1 or as_list:
         return list(names)
     return names[0]
@@ -180,7 +201,14 @@ def mk_rule(cfg, list_form=None, retarget=None, copied=None):
 
         how, decoy = copied
         p = _prefix(cfg, list_form)
-        c = _copy.deepcopy(p) if how == "deepcopy" else _pickle.loads(_pickle.dumps(p))
+        try:
+            c = _copy.deepcopy(p) if how == "deepcopy" else _pickle.loads(_pickle.dumps(p))
+        except Exception as e:  # noqa: BLE001  (no property promises that rule objects can be copied: no copy, no claim)
+            HUB.acc.count("rule_prefix_copies_that_raised")
+            HUB.acc.hist("rule_prefix_copy_error", f"{how}:{type(e).__name__}")
+            c = None
+        if c is None:
+            return getattr(p, FILTER_METHOD[cfg["objs"][0][0]])(_arg([n for _, n in cfg["objs"]], list_form))
         okind = cfg["objs"][0][0]
         onames = [n for _, n in cfg["objs"]]
         HUB.acc.count("rules_finished_on_a_copy_of_a_kept_prefix:" + how)
